@@ -1,7 +1,251 @@
-/-  C13/Driver — line protocol front end (core-only).  Placeholder until the property is built. -/
-import OttoVerif.Base.Proto
-namespace OttoVerif.C13.Driver
+/-
+  C13/Driver — line protocol front end (core-only).
+  request:  <op> <args…>      reply:  <model> <spec> <dev>
 
-def handle (_ws : List String) : String := "bad-op"
+    m1 <fn> <val>            fn ∈ sin cos tan asin acos atan exp log sqrt abs floor ceil round trunc
+    m2 pow|atan2 <val> <val>
+    mx max|min <val>*
+    isNaN <val> | isFinite <val>
+    enc uri|comp <sv> | dec uri|comp <sv> | escape <sv> | unescape <sv>
+
+  <val> is a C05 value token; <sv> is `g:<hex UTF-8 bytes>` (Go string) or `w:<hex UTF-16 units>`.
+  Numbers are answered as 16 hex digits.  For the library functions whose finite results ES5 leaves
+  "implementation-dependent" (sin … log, pow, atan2) a finite non-zero result is answered as
+  `~` + the top 40 bits of its pattern: the opaque `Lib` is instantiated HERE (and only here) with the
+  C library through Lean's `Float`, used as a reference value, and compared to 28 significant bits.
+-/
+import OttoVerif.Base.Proto
+import OttoVerif.Base.ParseNumber
+import OttoVerif.C13.Spec
+namespace OttoVerif.C13.Driver
+open OttoVerif.F64 OttoVerif.Proto OttoVerif.C13 OttoVerif.Str
+
+def env : C05.Env := { pn := OttoVerif.PN.parseNumber }
+
+def nk? : String → Option C05.NK
+  | "i8" => some .i8 | "i16" => some .i16 | "i32" => some .i32 | "i64" => some .i64 | "int" => some .int
+  | "u8" => some .u8 | "u16" => some .u16 | "u32" => some .u32 | "u64" => some .u64 | "uint" => some .uint
+  | _ => none
+
+def val? (t : String) : Option C05.Val :=
+  if t = "u" then some .undef
+  else if t = "n" then some .null
+  else match t.splitOn ":" with
+    | ["b", "0"] => some (.bool false)
+    | ["b", "1"] => some (.bool true)
+    | ["f", h] => (f64? h).map .f64
+    | ["s", h] => (bytes? h).map .str
+    | [k, i] => do let k ← nk? k; let i ← int? i; pure (.int k i)
+    | _ => none
+
+def num? (t : String) : Option FV := (val? t).map (C05.toFloat env)
+
+def sv? (t : String) : Option SV :=
+  match t.splitOn ":" with
+  | ["g", h] => (bytes? h).map .go
+  | ["w", h] => (units? h).map .u16
+  | _ => none
+
+/-! reference library (C libm through Lean's Float) -/
+def toF (x : FV) : Float := Float.ofBits (encode x)
+def ofF (r : Float) : FV := decode r.toBits
+
+def ref1 (f : Fn1) (x : FV) : FV :=
+  let a := toF x
+  ofF (match f with
+    | .sin => a.sin | .cos => a.cos | .tan => a.tan | .asin => a.asin | .acos => a.acos | .atan => a.atan
+    | .exp => a.exp | .log => a.log | .sqrt => a.sqrt)
+def refPow (x y : FV) : FV := ofF ((toF x).pow (toF y))
+def refAtan2 (y x : FV) : FV := ofF ((toF y).atan2 (toF x))
+
+/-- pow.go l.100–160 re-computed with `Log(x)` replaced by log(xl): x**yf = exp(yf·log xl), x**yi by Frexp -/
+def refPowLogPath (xl x y : FV) : FV :=
+  let fxl := toF xl; let fx := toF x; let fy := toF y
+  let ya := fy.abs
+  let yi0 := ya.floor
+  let yf0 := ya - yi0
+  let (yf, yi) := if yf0 > 0.5 then (yf0 - 1, yi0 + 1) else (yf0, yi0)
+  let sgn : Float := if fy < 0 then -1 else 1
+  let (x1, xe) := fx.frExp
+  let r := (fxl.pow (sgn * yf)) * (x1.pow (sgn * yi))
+  let sh : Int := xe * yi.toInt64.toInt * (if fy < 0 then -1 else 1)
+  ofF (r.scaleB sh)
+
+def lib : Lib := { core1 := ref1, powCore := refPow, powLogPath := refPowLogPath }
+
+def exactOut (x : FV) : String := f64Out x
+def approxOut (x : FV) : String :=
+  match x with
+  | .fin _ m _ => if m = 0 then f64Out x else "~" ++ toHexPadded 10 ((encode x).toNat / 2^24)
+  | _ => f64Out x
+
+def fn1? : String → Option Fn1
+  | "sin" => some .sin | "cos" => some .cos | "tan" => some .tan | "asin" => some .asin | "acos" => some .acos
+  | "atan" => some .atan | "exp" => some .exp | "log" => some .log | "sqrt" => some .sqrt | _ => none
+
+def reply (m s : String) (dev : String) : String := m ++ " " ++ s ++ " " ++ dev
+def boolOut (b : Bool) : String := if b then "true" else "false"
+
+/-- Dev region: Math.round computed as floor(x + 0.5) — the addition rounds -/
+def devRound (x : FV) : Bool :=
+  x = .fin false (2^53 - 1) (-54) ||
+  (match x with
+   | .fin _ m e => e = 0 && decide (2^52 ≤ m) && decide (m < 2^53) && m % 2 = 1
+   | _ => false)
+
+/-- Dev region: Math.pow(1, NaN) — Go's Pow(1, y) = 1 for any y -/
+def devPow (x y : FV) : Bool := eqNum x one && isNaN y
+
+/-- Dev region: Math.pow(x, y) with subnormal x > 0 and fractional y inherits the amd64 Log defect -/
+def devPowLog (x y : FV) : Bool :=
+  match x, y with
+  | .fin false mx ex, .fin _ my ey =>
+    mx ≠ 0 && !isIntegral my ey && logFrexpAmd64 mx ex != x && !(eqNum y half) && !(eqNum y (neg half))
+  | _, _ => false
+
+/-- Dev region: Math.atan2(y, x) with y < 0, x < 0 finite and y/x underflowing to +0 returns +π -/
+def devAtan2 (y x : FV) : Bool :=
+  match y, x with
+  | .fin true my _, .fin true mx _ => my ≠ 0 && mx ≠ 0 && isZero (div y x)
+  | _, _ => false
+
+def allNums (ts : List String) : Option (List FV) := ts.mapM num?
+
+/-! strings -/
+def strOut (o : Option (List Nat)) : String :=
+  match o with
+  | none => "throw:URIError"
+  | some us => "s:" ++ unitsOut us
+
+def svUnits : SV → List Nat
+  | .go b => unitsOfBytes b
+  | .u16 u => u
+
+/-- ill-formed UTF-16 (a surrogate code unit that is not part of a pair) -/
+def hasLone : List Nat → Bool
+  | [] => false
+  | u :: v :: rest =>
+    if 0xD800 ≤ u ∧ u < 0xDC00 ∧ 0xDC00 ≤ v ∧ v < 0xE000 then hasLone rest
+    else if 0xD800 ≤ u ∧ u < 0xE000 then true
+    else hasLone (v :: rest)
+  | [u] => 0xD800 ≤ u ∧ u < 0xE000
+
+def hasPair : List Nat → Bool
+  | [] => false
+  | u :: v :: rest =>
+    if 0xD800 ≤ u ∧ u < 0xDC00 ∧ 0xDC00 ≤ v ∧ v < 0xE000 then true else hasPair (v :: rest)
+  | [_] => false
+
+def isHexU (c : Nat) : Bool := isHex c
+/-- the text `%uDxyz` with x ∈ 8..F: an escape of a surrogate code unit -/
+def hasSurrogateEscape : List Nat → Bool
+  | 37 :: 117 :: a :: b :: c :: d :: rest =>
+    ((a = 68 ∨ a = 100) && (b = 56 ∨ b = 57 ∨ (65 ≤ b ∧ b ≤ 70) ∨ (97 ≤ b ∧ b ≤ 102)) && isHexU c && isHexU d)
+      || hasSurrogateEscape (117 :: a :: b :: c :: d :: rest)
+  | _ :: t => hasSurrogateEscape t
+  | [] => false
+
+def joinDev (ds : List String) : String :=
+  if ds.isEmpty then "-" else ",".intercalate ds
+
+def devStr (op : String) (v : SV) : String :=
+  let lone := match v with | .u16 u => hasLone u | .go _ => false
+  let us := svUnits v
+  let d0 := if lone && op != "enc" then ["lone_surrogate_input"] else []
+  let d1 := if op == "escape" && us.contains 64 then ["escape_at"] else []
+  let d2 := if op == "escape" && hasPair us then ["escape_astral"] else []
+  let d3 := if op == "unescape" && us.any (· ≥ 128) then ["unescape_nonascii"] else []
+  let d4 := if op == "unescape" && hasSurrogateEscape us then ["unescape_surrogate"] else []
+  joinDev (d0 ++ d1 ++ d2 ++ d3 ++ d4)
+
+def modelStr (o : Option (List Nat)) : String := strOut (o.map unitsOfBytes)
+
+/-- Dev region: Go's amd64 Exp returns +Inf although e^x ≤ MaxFloat64 -/
+def devExp (x : FV) : Bool :=
+  match x with
+  | .fin .. => expOverflowAmd64 x && !(gt x expOverflowConst)
+  | _ => false
+
+/-- Dev region: Go's amd64 Log mis-reads subnormal arguments -/
+def devLog (x : FV) : Bool :=
+  match x with
+  | .fin false m e => m ≠ 0 && logFrexpAmd64 m e != x
+  | _ => false
+
+partial def handle (ws : List String) : String :=
+  match ws with
+  | ["m1", f] => handle ["m1", f, "u"]
+  | ["m2", f] => handle ["m2", f, "u", "u"]
+  | ["m2", f, a] => handle ["m2", f, a, "u"]
+  | ["isNaN"] => handle ["isNaN", "u"]
+  | ["isFinite"] => handle ["isFinite", "u"]
+  | ["m1", f, a] =>
+    match num? a with
+    | none => "bad-op"
+    | some x =>
+      match fn1? f with
+      | some fn =>
+        let out := if fn = .sqrt then exactOut else approxOut
+        let dev := if fn = .exp && devExp x then "exp_overflow_early" else if fn = .log && devLog x then "log_subnormal" else "-"
+        reply (out (mathFn1 lib fn x)) (out ((Spec.fn1Table fn x).getD (ref1 fn x))) dev
+      | none =>
+        match f with
+        | "abs" => reply (exactOut (mathAbs x)) (exactOut (Spec.abs x)) "-"
+        | "floor" => reply (exactOut (mathFloor x)) (exactOut (Spec.floor x)) "-"
+        | "ceil" => reply (exactOut (mathCeil x)) (exactOut (Spec.ceil x)) "-"
+        | "trunc" => reply (exactOut (mathTrunc x)) (exactOut (Spec.trunc x)) "-"
+        | "round" => reply (exactOut (mathRound x)) (exactOut (Spec.round x)) (if devRound x then "round_half_add" else "-")
+        | _ => "bad-op"
+  | ["m2", "pow", a, b] =>
+    match num? a, num? b with
+    | some x, some y =>
+      reply (approxOut (mathPow lib x y)) (approxOut ((Spec.powTable x y).getD (refPow x y)))
+        (if devPow x y then "pow_one_nan" else if devPowLog x y then "log_subnormal" else "-")
+    | _, _ => "bad-op"
+  | ["m2", "atan2", a, b] =>
+    match num? a, num? b with
+    | some y, some x =>
+      reply (approxOut (mathAtan2 lib y x)) (approxOut ((Spec.atan2Table y x).getD (refAtan2 y x)))
+        (if devAtan2 y x then "atan2_underflow" else "-")
+    | _, _ => "bad-op"
+  | "mx" :: "max" :: ts =>
+    match allNums ts with
+    | some l => reply (exactOut (mathMax l)) (exactOut (Spec.max l)) "-"
+    | none => "bad-op"
+  | "mx" :: "min" :: ts =>
+    match allNums ts with
+    | some l => reply (exactOut (mathMin l)) (exactOut (Spec.min l)) "-"
+    | none => "bad-op"
+  | ["isNaN", a] =>
+    match val? a with
+    | some v => reply (boolOut (globalIsNaN env v)) (boolOut (Spec.globalIsNaN env v)) "-"
+    | none => "bad-op"
+  | ["isFinite", a] =>
+    match val? a with
+    | some v => reply (boolOut (globalIsFinite env v)) (boolOut (Spec.globalIsFinite env v)) "-"
+    | none => "bad-op"
+  | ["enc", k, a] =>
+    match sv? a with
+    | none => "bad-op"
+    | some v =>
+      if k = "uri" then reply (modelStr (encodeURI v)) (strOut (Spec.encodeURI (svUnits v))) (devStr "enc" v)
+      else if k = "comp" then reply (modelStr (encodeURIComponent v)) (strOut (Spec.encodeURIComponent (svUnits v))) (devStr "enc" v)
+      else "bad-op"
+  | ["dec", k, a] =>
+    match sv? a with
+    | none => "bad-op"
+    | some v =>
+      if k = "uri" then reply (modelStr (decodeURI true v)) (strOut (Spec.decodeURI (svUnits v))) (devStr "dec" v)
+      else if k = "comp" then reply (modelStr (decodeURI false v)) (strOut (Spec.decodeURIComponent (svUnits v))) (devStr "dec" v)
+      else "bad-op"
+  | ["escape", a] =>
+    match sv? a with
+    | none => "bad-op"
+    | some v => reply (modelStr (some (escape v))) (strOut (some (Spec.escape (svUnits v)))) (devStr "escape" v)
+  | ["unescape", a] =>
+    match sv? a with
+    | none => "bad-op"
+    | some v => reply (modelStr (some (unescape v))) (strOut (some (Spec.unescape (svUnits v)))) (devStr "unescape" v)
+  | _ => "bad-op"
 
 end OttoVerif.C13.Driver
